@@ -184,6 +184,13 @@ def run(pid, tier, seed):
         ("LP", "Minimize\n obj:\nSubject To\n c1: x >= 1\nEnd\n"),
         ("LP", "Minimize\n obj: 3 x + 2 y - x + 0.5 y + y\nSubject To\n c1: x + y + y >= 2\nEnd\n"),
         ("LP", "Minimize\n obj: x\nSubject To\n c1: 2 >= x\n c2: -x <= -1\n c3: 1 <= x <= 5\nGeneral\n x\nEnd\n"),
+        # files that stop right after a name, without a final newline (fix: '\\0' was taken for a name character)
+        ("LP", "Maximize\n obj: x\nSubject To\n c: y + st"),
+        ("LP", "Maximize\n obj: x\nSubject To\n c: y - 3/5 x"),
+        ("LP", "Maximize\n obj: x"),
+        ("LP", "Minimize\n obj: x\nSubject To\n c1: x >= 1\nBounds\n x"),
+        ("LP", "Minimize\n obj: x\nSubject To\n c1: x >= 1\nGeneral\n x"),
+        ("LP", "Minimize\n obj: x\nSubject To\n c1"),
     ]
     for k, (fmt, text) in enumerate(HAND):
         cases.append(("handmade", fmt, "h%d.%s" % (k, fmt.lower()), text.encode("latin-1")))
